@@ -16,6 +16,8 @@ import (
 
 type c06PoolCase struct {
 	n, mask, cpu int
+	// samePos: the use in f1.lua sits at the very line and column of the definition in f0.lua
+	samePos bool
 }
 
 func c06PoolCases(tier string) []c06PoolCase {
@@ -27,7 +29,10 @@ func c06PoolCases(tier string) []c06PoolCase {
 	for n := 2; n <= maxN; n++ {
 		for mask := 0; mask < 1<<uint(n-1); mask++ {
 			for _, cpu := range []int{1, 2} {
-				out = append(out, c06PoolCase{n, mask, cpu})
+				out = append(out, c06PoolCase{n, mask, cpu, false})
+				if mask&1 != 0 && n <= 3 {
+					out = append(out, c06PoolCase{n, mask, cpu, true})
+				}
 			}
 		}
 	}
@@ -42,7 +47,10 @@ func (c c06PoolCase) files() (map[string]string, []fileRange) {
 	}
 	for i := 1; i < c.n; i++ {
 		name := fmt.Sprintf("f%d.lua", i)
-		if c.mask&(1<<uint(i-1)) != 0 {
+		if i == 1 && c.samePos && c.mask&1 != 0 {
+			files[name] = "gq()\n"
+			occ = append(occ, fileRange{name, drv.Range{Start: drv.Pos{Line: 0, Character: 0}, End: drv.Pos{Line: 0, Character: 2}}})
+		} else if c.mask&(1<<uint(i-1)) != 0 {
 			files[name] = strings.Repeat("\n", i+1) + "print(gq)\n"
 			occ = append(occ, fileRange{name, drv.Range{Start: drv.Pos{Line: i + 1, Character: 6}, End: drv.Pos{Line: i + 1, Character: 8}}})
 		} else {
@@ -96,6 +104,10 @@ func c06PoolSpace(tier string) *core.Space {
 				if got != want {
 					sig := "global-references-across-many-files-not-exact"
 					coreS := fmt.Sprintf("%s | files=%d uses=%b processors=%d", sig, c.n, c.mask, c.cpu)
+					if c.samePos {
+						sig += ":use-at-the-position-of-the-definition-in-another-file"
+						coreS = fmt.Sprintf("%s | files=%d uses=%b processors=%d", sig, c.n, c.mask, c.cpu)
+					}
 					r.Outcome(sig)
 					r.Fail(name, i, sig, coreS, map[string]interface{}{"case": desc(i), "query": q.String(), "expected": want, "answer": got, "failure_core": coreS})
 					return
